@@ -1,6 +1,9 @@
 import Pyunicorn.Lemmas.Mpi
 import Pyunicorn.Lemmas.MpiProto
 import Pyunicorn.Lemmas.MpiChunk
+import Pyunicorn.Lemmas.MpiTerm
+import Pyunicorn.Lemmas.MpiErr
+import Pyunicorn.Lemmas.MpiPool
 import Pyunicorn.Model.MpiKernels
 import Pyunicorn.Generated.ArithC19
 import Pyunicorn.Generated.StructC19
@@ -1034,3 +1037,365 @@ example :
   decide
 
 end Pyunicorn.MpiChunk
+
+/-! ## Round 5 — termination: every schedule is finite work, every fair schedule completes
+
+Rounds 3 and 4 proved what a run returns *once `run()` has returned* and that no reachable
+state is a deadlock.  Missing was that runs do return.  `measure` (model) counts the work a
+state can still cause: the master's remaining calls (twice: a `submit_call` also puts a
+message into a channel), `terminate()` (`size + 1`) and the messages waiting in the channels
+master → slave.  Every executed step of every rank strictly decreases it — in every state,
+no invariant needed — so a schedule executes at most `2·|prog| + size + 1` of its entries;
+a schedule in which every rank gets its turn often enough (`fairBlock`s) ends in a state in
+which no rank can move, and such a state is a completed run (`no_deadlock`) in which every
+slave has left `serve()`. -/
+namespace Pyunicorn.MpiProto
+open Pyunicorn.Mpi (lookup)
+
+variable {α β : Type}
+
+/-- **every executed step strictly decreases the measure** — any state (reachable or not),
+any rank, both modes. -/
+theorem measure_decreases (f : α → β) (st st' : State α β) (c : Nat)
+    (h : step f st c = some st') : measure st' < measure st :=
+  measure_step_lt f st st' c h
+
+/-- **step bound**: under every schedule, for every number of ranks (single-process mode
+included) and every master program, at most `2·|prog| + size + 1` entries of the schedule
+are executed; more precisely executed steps + the measure of the state reached never
+exceed that number. -/
+theorem schedule_step_bound (f : α → β) (size : Nat) (prog : List (Op α)) (cs : List Nat) :
+    executed f (init (β := β) size prog) cs + measure (run f (init (β := β) size prog) cs) ≤
+      2 * prog.length + size + 1 := by
+  have := (executed_add_measure f cs (init (β := β) size prog)).2
+  rw [measure_init] at this
+  exact this
+
+/-- **every fair schedule completes** (`size ≥ 2`): if the schedule consists of at least
+`2·|prog| + size + 1` blocks each containing the master and every slave rank (in any order,
+with any repetitions and any further entries), then in the state reached no rank can move,
+`run()` has returned on the master or a call has raised, and in the first case every slave
+has left its `serve()` loop. -/
+theorem fair_schedule_completes (f : α → β) (size : Nat) (hsize : 2 ≤ size) (prog : List (Op α))
+    (bs : List (List Nat)) (hfair : ∀ b ∈ bs, fairBlock size b)
+    (hlen : 2 * prog.length + size + 1 ≤ bs.length) :
+    let st := run f (init (β := β) size prog) bs.flatten
+    quiescent f st ∧ (st.finished = true ∨ st.err.isSome = true) ∧
+    (st.finished = true → ∀ s, 1 ≤ s → s < size → st.alive s = false) := by
+  intro st
+  have hq : quiescent f st :=
+    fair_quiescent f bs (init (β := β) size prog) hfair (by rw [measure_init]; exact hlen)
+  have hinv := inv_runSched f prog bs.flatten _ (inv_init f size prog hsize)
+  have ht := tinv_run f prog bs.flatten _ (inv_init f size prog hsize) (tinv_init size prog)
+  refine ⟨hq, quiescent_done f prog st hinv hq, fun hfin s hs1 hs2 => ?_⟩
+  have hsz : st.size = size := size_run f _ _
+  exact quiescent_slaves_stopped f st ht hq hfin s hs1 (by rw [hsz]; exact hs2)
+
+/-- the same in the single-process mode (`size < 2`, `mpi.available == False`) -/
+theorem fair_schedule_completes_serial (f : α → β) (size : Nat) (hsize : size < 2)
+    (prog : List (Op α)) (bs : List (List Nat)) (hfair : ∀ b ∈ bs, fairBlock size b)
+    (hlen : 2 * prog.length + size + 1 ≤ bs.length) :
+    let st := run f (init (β := β) size prog) bs.flatten
+    quiescent f st ∧ (st.finished = true ∨ st.err.isSome = true) := by
+  intro st
+  have hq : quiescent f st :=
+    fair_quiescent f bs (init (β := β) size prog) hfair (by rw [measure_init]; exact hlen)
+  exact ⟨hq, quiescent_done_serial f prog st
+    (sinv_runSched f prog bs.flatten _ (sinv_init f size prog hsize)) hq⟩
+
+/-- **in-order programs always return the specified values**: a program that collects in
+submission order (`inOrder`), run under any fair schedule with any number of slaves, any time
+estimates and `slave=` arguments, completes without raising and has returned exactly what
+the communicator-free specification prescribes. -/
+theorem inorder_fair_run_returns (f : α → β) (size : Nat) (hsize : 2 ≤ size) (prog : List (Op α))
+    (hio : inOrder [] prog = true) (bs : List (List Nat)) (hfair : ∀ b ∈ bs, fairBlock size b)
+    (hlen : 2 * prog.length + size + 1 ≤ bs.length) :
+    let st := run f (init (β := β) size prog) bs.flatten
+    st.finished = true ∧ st.err = none ∧ specRun f ([], []) prog = .ok (st.queue, st.got) := by
+  intro st
+  have herr : st.err = none := inorder_never_raises f size hsize prog hio bs.flatten
+  have hfin : st.finished = true := by
+    rcases (fair_schedule_completes f size hsize prog bs hfair hlen).2.1 with h | h
+    · exact h
+    · have : st.err.isSome = true := h
+      rw [herr] at this; cases this
+  exact ⟨hfin, herr, finished_run_eq_spec f size hsize prog bs.flatten herr hfin⟩
+
+/-- **the master loops of the three measures complete** under every fair schedule of at
+least `4·parts + size + 1` rounds: `run()` returns, nothing raises, `get_result(i)` has
+returned `f (payload i)` for `i = 0..parts-1`, and every slave has left `serve()`. -/
+theorem master_loop_completes (f : α → β) (size : Nat) (hsize : 2 ≤ size) (parts : Nat)
+    (payload : Nat → α) (est : Nat → Int) (bs : List (List Nat))
+    (hfair : ∀ b ∈ bs, fairBlock size b) (hlen : 4 * parts + size + 1 ≤ bs.length) :
+    let st := run f (init (β := β) size (masterProg parts payload est)) bs.flatten
+    st.finished = true ∧ st.err = none ∧
+    st.got = (List.range parts).map (fun i => (i, f (payload i))) ∧
+    (∀ s, 1 ≤ s → s < size → st.alive s = false) := by
+  intro st
+  obtain ⟨herr, hgot⟩ := master_loop_correct f size hsize parts payload est bs.flatten
+  have hl : 2 * (masterProg parts payload est).length + size + 1 ≤ bs.length := by
+    simp only [masterProg, List.length_append, List.length_map, List.length_range]
+    omega
+  obtain ⟨_, hdone, hstop⟩ := fair_schedule_completes f size hsize _ bs hfair hl
+  have hfin : st.finished = true := by
+    rcases hdone with h | h
+    · exact h
+    · have : st.err.isSome = true := h
+      rw [herr] at this; cases this
+  exact ⟨hfin, herr, hgot hfin, hstop hfin⟩
+
+/-- non-vacuity: 3 ranks, 2 chunks, 12 round-robin rounds -/
+example :
+    let bs := List.replicate 12 [0, 1, 2]
+    let st := run (fun x : Nat => x * x) (init (β := Nat) 3
+      (masterProg 2 (fun i => i + 5) (fun _ => 1))) bs.flatten
+    (∀ b ∈ bs, fairBlock 3 b) ∧ 4 * 2 + 3 + 1 ≤ bs.length ∧
+    st.finished = true ∧ st.got = [(0, 25), (1, 36)] ∧ st.alive 1 = false ∧ st.alive 2 = false ∧
+    measure st = 0 ∧ measure (init (β := Nat) 3 (masterProg 2 (fun i => i + 5) (fun _ => 1))) = 12
+    := by
+  refine ⟨?_, by decide, by decide, by decide, by decide, by decide, by decide, by decide⟩
+  intro b hb
+  have : b = [0, 1, 2] := List.eq_of_mem_replicate hb
+  subst this
+  exact ⟨by decide, fun c hc => by
+    have : c = 0 ∨ c = 1 ∨ c = 2 := by omega
+    rcases this with h | h | h <;> subst h <;> decide⟩
+
+/-! ### error agreement: the protocol raises what the specification raises
+
+`mpi_refines_spec` (round 3) speaks about runs in which nothing has raised.  The error
+branches were tied by correspondence only.  Now: a `KeyError` (`get_result` of an id that is
+not pending) or "id already in queue" (`submit_call`) recorded in *any* reachable state is the
+error the communicator-free specification prescribes for the master program, and conversely a
+program whose specification raises `e` ends, under every fair schedule, with `e` — or with the
+one error the specification does not know, the per-slave FIFO restriction `outOfOrder`
+("get_result(id) called before get_result(other id)"), which can only hit programs that do not
+collect in submission order.  In the single-process mode there is no FIFO restriction and the
+agreement is exact. -/
+
+/-- **errors are the specification's errors** (`size ≥ 2`, every program, every schedule) -/
+theorem error_agrees_with_spec (f : α → β) (size : Nat) (hsize : 2 ≤ size) (prog : List (Op α))
+    (cs : List Nat) (e : Err) :
+    (run f (init (β := β) size prog) cs).err = some e → e ≠ .outOfOrder →
+      specRun f ([], []) prog = .error e :=
+  errOk_run f prog cs _ (inv_init f size prog hsize) (errOk_init f size prog) e
+
+/-- **single-process mode: every error is the specification's error** -/
+theorem error_agrees_with_spec_serial (f : α → β) (size : Nat) (hsize : size < 2)
+    (prog : List (Op α)) (cs : List Nat) (e : Err) :
+    (run f (init (β := β) size prog) cs).err = some e → specRun f ([], []) prog = .error e :=
+  errOkS_run f prog cs _ (sinv_init f size prog hsize) (by intro e he; simp [init] at he) e
+
+/-- **any error implies the program does not collect in submission order** (or re-uses a
+pending id): contrapositive of `inorder_never_raises`, for the record next to the above -/
+theorem raises_only_if_not_inorder (f : α → β) (size : Nat) (hsize : 2 ≤ size)
+    (prog : List (Op α)) (cs : List Nat) (e : Err)
+    (h : (run f (init (β := β) size prog) cs).err = some e) : inOrder [] prog = false := by
+  cases hio : inOrder [] prog with
+  | false => rfl
+  | true =>
+    rw [inorder_never_raises f size hsize prog hio cs] at h
+    cases h
+
+/-- **a program whose specification raises, raises** (`size ≥ 2`): under every fair schedule
+the run ends with the specified error or with the FIFO restriction `outOfOrder`; it never
+completes normally. -/
+theorem spec_error_is_raised (f : α → β) (size : Nat) (hsize : 2 ≤ size) (prog : List (Op α))
+    (e : Err) (hspec : specRun f ([], []) prog = .error e)
+    (bs : List (List Nat)) (hfair : ∀ b ∈ bs, fairBlock size b)
+    (hlen : 2 * prog.length + size + 1 ≤ bs.length) :
+    let st := run f (init (β := β) size prog) bs.flatten
+    st.err = some e ∨ st.err = some .outOfOrder := by
+  intro st
+  cases herr : st.err with
+  | none =>
+    rcases (fair_schedule_completes f size hsize prog bs hfair hlen).2.1 with h | h
+    · have := finished_run_eq_spec f size hsize prog bs.flatten herr h
+      rw [hspec] at this; cases this
+    · have h' : st.err.isSome = true := h
+      rw [herr] at h'; cases h'
+  | some e' =>
+    by_cases ho : e' = .outOfOrder
+    · right; rw [ho]
+    · left
+      have := error_agrees_with_spec f size hsize prog bs.flatten e' herr ho
+      rw [hspec] at this
+      cases this; rfl
+
+/-- … exactly the specified error in the single-process mode -/
+theorem spec_error_is_raised_serial (f : α → β) (size : Nat) (hsize : size < 2)
+    (prog : List (Op α)) (e : Err) (hspec : specRun f ([], []) prog = .error e)
+    (bs : List (List Nat)) (hfair : ∀ b ∈ bs, fairBlock size b)
+    (hlen : 2 * prog.length + size + 1 ≤ bs.length) :
+    (run f (init (β := β) size prog) bs.flatten).err = some e := by
+  cases herr : (run f (init (β := β) size prog) bs.flatten).err with
+  | none =>
+    rcases (fair_schedule_completes_serial f size hsize prog bs hfair hlen).2 with h | h
+    · have := serial_run_eq_spec f size hsize prog bs.flatten herr h
+      rw [hspec] at this; cases this
+    · rw [herr] at h; cases h
+  | some e' =>
+    have := error_agrees_with_spec_serial f size hsize prog bs.flatten e' herr
+    rw [hspec] at this
+    cases this; rfl
+
+/-- non-vacuity: an unknown id raises `KeyError`, a duplicate id "already in queue" — in the
+model and in the specification; an out-of-order collection raises only with slaves -/
+example :
+    (run (fun x : Nat => x) (init (β := Nat) 3 [.submit 0 7 1 none, .get 4]) [0, 0]).err
+      = some .keyError ∧
+    specRun (fun x : Nat => x) ([], []) [.submit 0 7 1 none, .get 4] = .error .keyError ∧
+    (run (fun x : Nat => x) (init (β := Nat) 3 [.submit 0 7 1 none, .submit 0 8 1 none])
+      [0, 0]).err = some .alreadyQueued ∧
+    (run (fun x : Nat => x) (init (β := Nat) 2
+      [.submit 0 7 1 none, .submit 1 8 1 none, .get 1]) [0, 0, 0]).err = some .outOfOrder ∧
+    (run (fun x : Nat => x) (init (β := Nat) 1
+      [.submit 0 7 1 none, .submit 1 8 1 none, .get 1]) [0, 0, 0]).got = [(1, 8)] :=
+  ⟨by decide, rfl, by decide, by decide, by decide⟩
+
+end Pyunicorn.MpiProto
+
+namespace Pyunicorn.MpiChunk
+open Pyunicorn.Generated Pyunicorn.Mpi Pyunicorn.MpiProto
+
+variable {ρ β : Type}
+
+/-- **Newman betweenness, unconditional form**: under every fair schedule (at least
+`4·parts + size + 1` rounds in each of which the master and every slave occur) the
+distributed run *does* return, and what it assembles is the serial result. -/
+theorem newman_fair_run_eq_serial [Inhabited ρ] [DecidableEq β]
+    (body : (Nat → ρ) → (Nat → Arr ρ) → Nat → β) (full : Nat → Arr ρ) (zero : β)
+    (N size : Nat) (hsize : 2 ≤ size) (hN : 1 ≤ N) (est : Nat → Int) (bs : List (List Nat))
+    (hfair : ∀ b ∈ bs, fairBlock size b) :
+    let stepZ := ArithC19.newman_step N (ArithC19.newman_max_parts size N)
+    let partsZ := ArithC19.newman_parts N stepZ
+    let payload : Nat → Nat × Nat := fun i =>
+      ((ArithC19.newman_start i stepZ).toNat, (ArithC19.newman_end i stepZ N).toNat)
+    let f : Nat × Nat → Nat × List β := fun c =>
+      (c.1, chunkKernelRel newmanIdx body (distArgs newmanPass full c.1) c.1 c.2)
+    let st := run f (init (β := Nat × List β) size (masterProg partsZ.toNat payload est))
+      bs.flatten
+    4 * partsZ.toNat + size + 1 ≤ bs.length →
+    st.finished = true ∧ st.err = none ∧
+      assembleR zero N (st.got.map (·.2)) = chunkKernelRel newmanIdx body full 0 N := by
+  intro stepZ partsZ payload f st hlen
+  have h := newman_distributed_eq_serial body full zero N size hsize hN est bs.flatten
+  have hf := (master_loop_completes f size hsize partsZ.toNat payload est bs hfair hlen).1
+  exact ⟨hf, h.1, h.2 hf⟩
+
+/-- **n.s.i. Newman betweenness, unconditional form** -/
+theorem nsinewman_fair_run_eq_serial [Inhabited ρ] [DecidableEq β]
+    (body : (Nat → ρ) → (Nat → Arr ρ) → Nat → β) (full : Nat → Arr ρ) (zero : β)
+    (N size : Nat) (hsize : 2 ≤ size) (hN : 1 ≤ N) (est : Nat → Int) (bs : List (List Nat))
+    (hfair : ∀ b ∈ bs, fairBlock size b) :
+    let stepZ := ArithC19.nsinewman_step N (ArithC19.nsinewman_max_parts size N)
+    let partsZ := ArithC19.nsinewman_parts N stepZ
+    let payload : Nat → Nat × Nat := fun i =>
+      ((ArithC19.nsinewman_start i stepZ).toNat, (ArithC19.nsinewman_end i stepZ N).toNat)
+    let f : Nat × Nat → Nat × List β := fun c =>
+      (c.1, chunkKernelRel nsinewmanIdx body (distArgs nsinewmanPass full c.1) c.1 c.2)
+    let st := run f (init (β := Nat × List β) size (masterProg partsZ.toNat payload est))
+      bs.flatten
+    4 * partsZ.toNat + size + 1 ≤ bs.length →
+    st.finished = true ∧ st.err = none ∧
+      assembleR zero N (st.got.map (·.2)) = chunkKernelRel nsinewmanIdx body full 0 N := by
+  intro stepZ partsZ payload f st hlen
+  have h := nsinewman_distributed_eq_serial body full zero N size hsize hN est bs.flatten
+  have hf := (master_loop_completes f size hsize partsZ.toNat payload est bs hfair hlen).1
+  exact ⟨hf, h.1, h.2 hf⟩
+
+/-- **n.s.i. Arenas betweenness, unconditional form** (exact arithmetic) -/
+theorem arenas_fair_run_eq_serial [Inhabited ρ]
+    (body : (Nat → ρ) → (Nat → Arr ρ) → Nat → Nat → Int) (full : Nat → Arr ρ)
+    (N size : Nat) (hsize : 2 ≤ size) (hN : 1 ≤ N) (est : Nat → Int) (bs : List (List Nat))
+    (hfair : ∀ b ∈ bs, fairBlock size b) :
+    let stepZ := ArithC19.arenas_step N (ArithC19.arenas_max_parts size N)
+    let partsZ := ArithC19.arenas_parts N stepZ
+    let payload : Nat → Nat × Nat := fun i =>
+      ((ArithC19.arenas_start i stepZ).toNat, (ArithC19.arenas_end i stepZ N).toNat)
+    let f : Nat × Nat → List Int := fun c =>
+      addKernel arenasIdx body N (distArgs arenasPass full c.1) c.1 c.2
+    let st := run f (init (β := List Int) size (masterProg partsZ.toNat payload est)) bs.flatten
+    4 * partsZ.toNat + size + 1 ≤ bs.length →
+    st.finished = true ∧ st.err = none ∧
+      assembleAdd N (st.got.map (·.2)) = addKernel arenasIdx body N full 0 N := by
+  intro stepZ partsZ payload f st hlen
+  have h := arenas_distributed_eq_serial body full N size hsize hN est bs.flatten
+  have hf := (master_loop_completes f size hsize partsZ.toNat payload est bs hfair hlen).1
+  exact ⟨hf, h.1, h.2 hf⟩
+
+end Pyunicorn.MpiChunk
+
+/-! ## Round 5 — the multiprocessing kernel `_nsi_betweenness`: state across `for j in targets`
+
+`pool_sum_eq_serial` (round 3) assumed that the kernel behind `pool.map(worker, batches)` is a
+sum of per-target contributions.  The Cython kernel allocates its work arrays once, before the
+loop over the targets, and mutates them inside; it is such a sum only because every iteration
+re-initialises each of them before use.  `translate/gen_C19.py` regenerates the classification
+of every array local from `numerics.pyx`; the model `Pyunicorn.MpiPool` is the loop with an
+arbitrary iteration body over these arrays. -/
+namespace Pyunicorn.MpiPool
+open Pyunicorn.Mpi Pyunicorn.MpiProto Pyunicorn.Generated
+
+/-- **the kernel of the current source carries nothing from target to target**: every array
+local of `_nsi_betweenness` is left alone by the target loop, re-initialised at the top of
+every iteration before its first use, or the accumulator (exactly one, allocated as zeros,
+only `+=`-updated at the top level of the loop, and returned); no parameter is written; no
+scalar local is read in an iteration before being assigned in it; the loop runs over the last
+parameter, which is the one `pool.map` / the serial call supply (`partial` binds all others). -/
+theorem pool_kernel_tables_ok : poolKernelOk = true := by decide
+
+/-- **a kernel that carries nothing is a sum of per-target contributions** — for every
+iteration body, every classification without a `carried` array, every initial contents of the
+arrays: the result is the sum over the targets of what the body yields from the *same* entry
+state, whatever the earlier iterations left behind. -/
+theorem pool_kernel_eq_sum (cls : Nat → Cls) (hcls : ∀ a, cls a ≠ .carried) (fresh : Work)
+    (iter : Work → Nat → Work × List Int) (N : Nat) (s0 : Work) (targets : List Nat) :
+    poolKernel cls fresh iter N s0 targets =
+      sumVecs N (targets.map fun j => (iter (entry cls fresh s0) j).2) :=
+  poolKernel_eq_sum cls hcls fresh iter N s0 targets
+
+/-- **pool result = serial result for a stateful kernel** (exact arithmetic): for every
+iteration body, every number of workers `n ≥ 1` (`np.array_split` batches, empty ones
+included), every `targets` (unsorted, repeated): adding up the per-batch results of worker
+processes that each start from freshly allocated arrays gives the single call
+`worker(targets)`. -/
+theorem pool_run_eq_serial (cls : Nat → Cls) (hcls : ∀ a, cls a ≠ .carried) (fresh : Work)
+    (iter : Work → Nat → Work × List Int) (N : Nat) (s0 : Work) (targets : List Nat) (n : Nat)
+    (hn : 1 ≤ n) (hlen : ∀ s j, (iter s j).2.length = N) :
+    poolRun cls fresh iter N s0 targets n = poolKernel cls fresh iter N s0 targets := by
+  unfold poolRun
+  have hk : poolKernel cls fresh iter N s0 =
+      fun b => sumVecs N (b.map fun j => (iter (entry cls fresh s0) j).2) := by
+    funext b
+    exact poolKernel_eq_sum cls hcls fresh iter N s0 b
+  rw [hk]
+  have := sumVecs_flatten N (fun j => (iter (entry cls fresh s0) j).2) (fun j => hlen _ j)
+    (arraySplit targets n)
+  unfold sumVecs at this ⊢
+  rw [this, (pool_batches_partition targets n hn).1]
+
+/-- **n.s.i. shortest-path betweenness: pool = serial**, for the kernel of the current source
+(classification regenerated, nothing assumed about the iteration body but the length of the
+vector it adds). -/
+theorem nsi_betweenness_pool_eq_serial (fresh : Work) (iter : Work → Nat → Work × List Int)
+    (N : Nat) (s0 : Work) (targets : List Nat) (n : Nat) (hn : 1 ≤ n)
+    (hlen : ∀ s j, (iter s j).2.length = N) :
+    poolRun poolCls fresh iter N s0 targets n = poolKernel poolCls fresh iter N s0 targets := by
+  have hall : StructC19.pool_kernel_arrays.all (fun x => clsOfString x.2 != .carried) = true := by
+    decide
+  exact pool_run_eq_serial poolCls (clsOf_ne_carried _ hall) fresh iter N s0 targets n hn hlen
+
+/-- sharpness: one array that is neither re-initialised nor left alone (here: array 0 counts
+the iterations) and the batches no longer add up to the serial call — what a dropped
+`X.fill(..)` at the top of the target loop does. -/
+example :
+    let cls : Nat → Cls := fun _ => .carried
+    let iter : Work → Nat → Work × List Int := fun s j => (fun _ => [1], [(s 0).sum + j])
+    poolRun cls (fun _ => []) iter 1 (fun _ => [0]) [5, 6] 2 = [11] ∧
+    poolKernel cls (fun _ => []) iter 1 (fun _ => [0]) [5, 6] = [12] ∧
+    poolRun (fun _ => .reset) (fun _ => [0]) iter 1 (fun _ => [0]) [5, 6] 2 = [11] ∧
+    poolKernel (fun _ => .reset) (fun _ => [0]) iter 1 (fun _ => [0]) [5, 6] = [11] := by
+  decide
+
+end Pyunicorn.MpiPool
